@@ -197,12 +197,23 @@ def gen_reasm(tier, r):
         for _ in range(r.choice([1, 2, 3])):
             k = r.choice([1, 3, 5, 6, 7, 10])
             items.append((k, bytes(r.getrandbits(8) for _ in range(r.choice([0, 1, 32, 200, 255, 256, 300, 600])))))
-        blob = ref_encode(items)
         m = r.random()
+        regular = i % 4 == 3
+        if regular:
+            # repetitive content in equal pieces: consecutive fragments are then byte-identical (a reassembler
+            # must still append each of them), e.g. zero padding or a constant value in 257-byte TLV items
+            fill = r.choice([b"\x00", b"\xff", b"\x05\xff", b"ab", b"\x00\x00\x00\x01"])
+            items = [(k, (fill * 400)[: len(v)]) for k, v in items]
+            if r.random() < 0.5:
+                items = [(5, (fill * 1000)[: r.choice([510, 800, 1020, 1500])])]
+        blob = ref_encode(items)
         if m < 0.1 and blob:
             blob = blob[: r.randrange(len(blob))]           # blob that does not decode
         npieces = r.choice([1, 2, 3, 5, 8]) if m < 0.97 else 60
         cuts = sorted(r.randrange(len(blob) + 1) for _ in range(npieces - 1))
+        if regular and m < 0.97:
+            size = r.choice([1, 2, 4, 16, 64, 257, 514])
+            cuts = list(range(size, len(blob), size))[:50]
         pieces = [blob[a:b] for a, b in zip([0] + cuts, cuts + [len(blob)])]
         replies = [ref_encode([(12, p)]) for p in pieces[:-1]] + [ref_encode([(13, pieces[-1])])]
         if 0.9 < m < 0.93:
@@ -247,6 +258,28 @@ def oracle_dec(bs, exp, impl):
         if impl == "other:IndexError" and any(k == 7 and len(v) == 0 for k, v in want):
             slug = "empty-error-item-IndexError"
         return (slug, f"decoded items differ from the reference parse (got {impl[:80]}, want {fmt_items(want)[:80]})")
+    return None
+
+
+def oracle_reasm(replies, impl):
+    """Independent of the model, for plainly fragmented scripts only (every reply is exactly one FragmentData item,
+    the last exactly one FragmentLast item): the result is the decoding of the concatenated pieces, with one
+    acknowledgement per FragmentData reply."""
+    pieces = []
+    for i, rep in enumerate(replies):
+        d = ref_decode(rep, None)
+        want_key = 13 if i == len(replies) - 1 else 12
+        if d is None or len(d) != 1 or d[0][0] != want_key:
+            return None
+        pieces.append(d[0][1])
+    if len(replies) > 50:                     # MAX_REASSEMBLY: longer scripts are refused (modelled, `toomany`)
+        return None
+    items = ref_decode(b"".join(pieces), None)
+    acks = len(replies) - 1
+    want = f"fail {acks} parse" if items is None else f"done {acks} " + dict_str(dict(items))
+    if impl != want:
+        return ("reasm:wrong-result", f"fragmented reply of {len(replies)} pieces reassembled to {impl[:80]}, "
+                f"the pieces concatenated decode to {want[:80]}")
     return None
 
 
@@ -355,7 +388,7 @@ def run(ctx):
         return [await impl_reasm_async(replies) for replies in re_cases]
     impls = asyncio.run(all_reasm())
     for replies, m, impl in zip(re_cases, model, impls):
-        orc = None
+        orc = oracle_reasm(replies, impl)
         report("reasm", [hx(x) for x in replies], impl, m, orc, {})
         cov.case("r" + repr(replies), len(replies) >= 1,
                  sample=dict(stream="reasm", replies=[hx(x)[:40] for x in replies][:4], impl=impl[:60]) if cov.evaluations % 211 == 0 else None,
